@@ -285,12 +285,20 @@ func spec_cand(l *LALR1, tr Transistor, a *Action, sy int) bool {
 
 //@ func (*LALR1).CalcReadSet
 //@ props C14
+//@ props_tagged_only C03 C02
 //@ order_only
+// wiring of the digraph (C03): Read = digraph(nodes = keys of DRSet, relation = reads, base = DR)
+//@ before_stmt [C03,C02] "R := lalr.CalcAllReadRelations()" true
+//@ before_stmt [C03,C02] "Digraph(X, R, lalr.DRSet, &lalr.ReadSet)" true
 //@ loop 0: order_assumed the order of X only changes Digraph's traversal order; ReadSet is used as a set per key (Digraph-spec hypothesis, bounded)
 
 //@ func (*LALR1).CalcFollowSet
 //@ props C14
+//@ props_tagged_only C03 C02
 //@ order_only
+// wiring of the digraph (C03): Follow = digraph(nodes = keys of ReadSet, relation = includes, base = Read)
+//@ before_stmt [C03,C02] "R := lalr.CaclIncludes()" true
+//@ before_stmt [C03,C02] "Digraph(X, R, lalr.ReadSet, &lalr.FollowSet)" true
 //@ loop 0: order_assumed the order of X only changes Digraph's traversal order; FollowSet is used as a set per key (Digraph-spec hypothesis, bounded)
 
 //@ func (*LALR1).CalcAllReadRelations
@@ -740,3 +748,22 @@ func spec_namesSp(l *LALR1, set []int, n int) string { panic("spec") }
 //@ modifies nothing
 //@ loop 0: invariant forall n int :: 0 <= n && n < len(res) ==> res[n].x == transIndex && readsOK(lalr, transIndex, res[n].y)
 //@ loop 0: invariant forall y int :: {lalr.trans[y]} y < idx0 && readsOK(lalr, transIndex, y) ==> (exists n int :: 0 <= n && n < len(res) && res[n].x == transIndex && res[n].y == y)
+
+// C03 / C02: the lookahead set of a reduction is what the digraph computes for it from the Follow sets over the lookback
+// relation - except for the augmented rule 0, whose only lookahead is the end marker. Digraph itself is covered by the
+// bounded stand-in; here the wiring around it is pinned: which nodes, which relation, which base sets, which result is stored.
+//@ func (*LALR1).CalcLookAheadSet
+//@ props_tagged_only C03 C02 C01
+//@ requires wfTrans(lalr)
+//@ before_stmt [C03,C02,C01] "R := lalr.CalcLookbacks()" len(X) == len(rng0) && (forall k int :: 0 <= k && k < len(X) ==> X[k] == rng0[k].Index && has(Set, X[k]))
+//@ before_stmt [C03,C02,C01] "Digraph(X, R, lalr.FollowSet, &Set)" true
+//@ loop 0: invariant [C03,C02,C01] len(X) == idx0 && (forall k int :: 0 <= k && k < idx0 ==> X[k] == rng0[k].Index && has(Set, X[k]))
+//@ loop 1: end_of_body [C03,C02,C01] (rng1[idx1].sym_or_rule&Mask == 0 ==> len(lalr.LookAheadSet[rng1[idx1].Index]) == 1 && lalr.LookAheadSet[rng1[idx1].Index][0] == 1) &&
+//@     (rng1[idx1].sym_or_rule&Mask != 0 ==> lalr.LookAheadSet[rng1[idx1].Index] == Set[rng1[idx1].Index])
+
+// C03 / C02 / C01: the stages of the LALR construction run in the order their inputs require: transitions, direct reads,
+// reads (Read sets), includes (Follow sets), lookback (lookahead sets), table
+//@ func ComputeLALR
+//@ props C03 C02 C01
+//@ effects_only
+//@ effect sequence lalr.NewLALR, (*lalr.LALR1).BuildTrans, (*lalr.LALR1).CalcDR, (*lalr.LALR1).CalcReadSet, (*lalr.LALR1).CalcFollowSet, (*lalr.LALR1).CalcLookAheadSet, (*lalr.LALR1).GenTable
